@@ -177,5 +177,7 @@ for stochastic in (False, True):
         export_contract(kind + ':numeric', [([], ['P'], kind, pdn)], [], stochastic)
     export_contract('general:michaelis-menten', [(['A'], ['P'], 'general', {'rate': 'kf*A*B/(Kd+A)'})], ['kf', 'Kd'], stochastic)
     export_contract('general:python-power', [(['A', 'A'], ['P'], 'general', {'rate': 'kf*A**2 - Kd*A'})], ['kf', 'Kd'], stochastic)
+    export_contract('general:unary-minus-on-a-power', [(['A'], ['P'], 'general', {'rate': 'kf*exp(-A^2/Kd) + B'})], ['kf', 'Kd'], stochastic)
+    export_contract('general:power-of-a-power', [(['A'], ['P'], 'general', {'rate': 'kf*A^B^0.5 + Kd'})], ['kf', 'Kd'], stochastic)
     export_contract('two-reactions', [(['A', 'B'], ['C'], 'massaction', {'k': 'kf'}), (['C'], ['A', 'B'], 'massaction', {'k': '$kr'})],
                     ['kf'], stochastic)
